@@ -525,6 +525,6 @@ def Env.wf (env : Env) : Bool := Env.wfAux env env
 
 /-- Fuel that `Props/C28.lean` proves sufficient for any match with a checked grammar. -/
 def matchBound (env : Env) (ntoks : Nat) : Nat :=
-  ntoks * (env.firstFuel + env.maxSize + 1) + env.firstFuel + 1
+  ntoks * (env.firstFuel + env.maxSize + 1) + (env.firstFuel + env.maxSize)
 
 end GopModel.Tpl
